@@ -111,7 +111,8 @@ pub fn main() -> i32 {
         }
         "gen-mates" => {
             let n: usize = args.rest.first().and_then(|x| x.parse().ok()).unwrap_or(100);
-            for (fen, label) in mates::generate(n, 0x5EED_C12) {
+            let minor = args.rest.get(1).is_some_and(|x| x == "minor");
+            for (fen, label) in mates::generate(n, if minor { 0x5EED_C12B } else { 0x5EED_C12 }, minor) {
                 println!("{label}\t{fen}");
             }
             0
